@@ -81,6 +81,11 @@ func Load(dir string, cfg Config) (*Prog, error) {
 				inlined = gone
 				break
 			}
+			if d := os.Getenv("VERIF_DUMP_OVERLAY"); d != "" {
+				for name, b := range next {
+					os.WriteFile(filepath.Join(d, fmt.Sprintf("round%d__", round+1)+strings.ReplaceAll(strings.TrimPrefix(name, abs+"/"), "/", "__")), b, 0o644)
+				}
+			}
 			pc2 := &packages.Config{Mode: packages.LoadAllSyntax, Dir: dir, Env: env, Tests: false, Overlay: next}
 			np, lerr := packages.Load(pc2, "./...")
 			if lerr != nil || moduleErrors(np) > moduleErrors(pkgs) {
